@@ -60,7 +60,7 @@ const (
 	y2260 = 9151488000
 )
 
-func genLifetime(r *vfh.Rand) time.Duration {
+func vfGenLifetime(r *vfh.Rand) time.Duration {
 	switch r.Intn(8) {
 	case 0:
 		return time.Duration(r.Range(1, 10)) // a few ns
@@ -82,7 +82,7 @@ func genLifetime(r *vfh.Rand) time.Duration {
 }
 
 // clockSeq returns n non-decreasing instants (UnixNano) stressing the given deadlines.
-func clockSeq(r *vfh.Rand, epoch int64, deadlines []int64, n int) []int64 {
+func vfClockSeq(r *vfh.Rand, epoch int64, deadlines []int64, n int) []int64 {
 	lo := epoch - int64(30*365*24*time.Hour)
 	var pts []int64
 	for len(pts) < n {
@@ -121,15 +121,15 @@ func clockSeq(r *vfh.Rand, epoch int64, deadlines []int64, n int) []int64 {
 // ts[i] on the first call and advances by step on every further call (never beyond the next
 // reading), so that an implementation which reads the clock more than once per RA is exercised
 // with a clock that moves between its reads. It stays a non-decreasing clock.
-type stepClock struct {
+type vfStepClock struct {
 	ts    []int64
 	step  int64
 	i     int
 	reads int
 }
 
-func newStepClock(r *vfh.Rand, ts []int64) *stepClock {
-	c := &stepClock{ts: ts}
+func vfNewStepClock(r *vfh.Rand, ts []int64) *vfStepClock {
+	c := &vfStepClock{ts: ts}
 	switch r.Intn(8) {
 	case 0:
 		c.step = 1
@@ -143,9 +143,9 @@ func newStepClock(r *vfh.Rand, ts []int64) *stepClock {
 	return c
 }
 
-func (c *stepClock) at(i int) { c.i, c.reads = i, 0 }
+func (c *vfStepClock) at(i int) { c.i, c.reads = i, 0 }
 
-func (c *stepClock) now() time.Time {
+func (c *vfStepClock) now() time.Time {
 	v := c.ts[c.i] + int64(c.reads)*c.step
 	if c.i+1 < len(c.ts) && v > c.ts[c.i+1] {
 		v = c.ts[c.i+1]
@@ -189,13 +189,13 @@ func verifC16(t *testing.T, r *vfh.Rand, out *vfh.Out) {
 		dep := r.Chance(4, 5)
 		if r.Bool() {
 			// prefix
-			V := genLifetime(r)
+			V := vfGenLifetime(r)
 			P := V
 			if r.Chance(3, 4) {
 				P = time.Duration(r.Range(1, int64(V)))
 			}
-			ts := clockSeq(r, e, []int64{e + int64(V), e + int64(P)}, 2+r.Intn(7))
-			clk := newStepClock(r, ts)
+			ts := vfClockSeq(r, e, []int64{e + int64(V), e + int64(P)}, 2+r.Intn(7))
+			clk := vfNewStepClock(r, ts)
 			p := &Prefix{
 				Prefix:            netip.MustParsePrefix("2001:db8::/64"),
 				OnLink:            r.Bool(),
@@ -229,9 +229,9 @@ func verifC16(t *testing.T, r *vfh.Rand, out *vfh.Out) {
 			}
 			out.Line(c.String(), impl.String())
 		} else {
-			L := genLifetime(r)
-			ts := clockSeq(r, e, []int64{e + int64(L)}, 2+r.Intn(7))
-			clk := newStepClock(r, ts)
+			L := vfGenLifetime(r)
+			ts := vfClockSeq(r, e, []int64{e + int64(L)}, 2+r.Intn(7))
+			clk := vfNewStepClock(r, ts)
 			rt := &Route{
 				Prefix:     netip.MustParsePrefix("2001:db8:1::/48"),
 				Preference: ndp.Medium,
